@@ -469,7 +469,17 @@ def jobs(tier):
                 add("h_cancel", op=op, S=S_, N=1, X=(1, 5), fl=fl, ffl=ffl, aclose_ret=True, **kw)
         add("h_cancel_tee", N=2, fl=fl)
         add("h_cancel_groupby", fl=fl, ffl=ffl)
+        # an iterator without aclose in front of closeable ones
+        for op in ("zip", "zip_longest", "chain", "merge"):
+            add("h_cancel", op=op, S=3, N=1, X=(1, 7), fls=["bare", fl, fl, fl], ffl=ffl)
+            add("h_cancel", op=op, S=2, N=2, X=(1, 9), fls=[fl, "bare", fl, fl], ffl=ffl)
+        for b0 in (False, True):
+            for x0 in ((1, 4), (5, 8), (9, 12)):
+                add("h_cancel", op="merge", S=3, N=2, X=x0, fl=fl, ffl=ffl, b0=b0, b1=False)
         add("h_cancel_scoped", fl=fl)
+    add("h_cancel_scoped", fl="aitb")
+    for fl, ffl in (("agen", "adef"), ("acls", "obj")):
+        pass
     add("h_cancel_lru")
     add("h_cancel_cprop")
     add("h_cancel_stack")
